@@ -167,6 +167,9 @@ func (g *Gen) bytesVal() []byte {
 	for i := range b {
 		b[i] = byte("xyz\x00\xff7"[g.R.Intn(6)])
 	}
+	if g.R.Chance(1, 10) { // values that look like the tagged values of a set_sum store (they are plain bytes here)
+		b = append([]byte([]string{"set:", "sum:", "set:", "se"}[g.R.Intn(4)]), b...)
+	}
 	return b
 }
 
